@@ -79,7 +79,7 @@ def from_description(d):
 def run_case(k, cuda=False, **over):
     return wc.run_wavesim(k.c, over.get('delays', k.delays), over.get('sims', k.sims), over.get('caps', k.caps),
                           over.get('reuse', k.reuse), over.get('strip', k.strip), k.s0, k.s1, k.s2, k.extra, k.tcap,
-                          a_ctrl=k.a_ctrl, cuda=cuda, warm=over.get('warm'), repickle=over.get('repickle'), prop_sims=over.get('prop_sims'))
+                          a_ctrl=k.a_ctrl, cuda=cuda, warm=over.get('warm'), repickle=over.get('repickle'), prop_sims=over.get('prop_sims'), pre_extra=over.get('pre_extra'))
 
 
 def warm_round(rng, k):
@@ -122,6 +122,15 @@ def mixed_dataset_run(rng, k, nds=3, cuda=False):
     ctl = np.array([pick, mode], dtype=np.int32)
     w = wc.run_wavesim(k.c, dsets, k.sims, k.caps, k.reuse, k.strip, k.s0, k.s1, k.s2, k.extra, k.tcap, cuda=cuda, simctl=ctl, seed=g)
     return w, dsets, [g if mode[l] == 0 else pick[l] for l in range(k.sims)], {'datasets': dsets.tolist(), 'seed': g, 'simctl': ctl.tolist()}
+
+
+def pre_extra_replay(d):
+    k = from_description(d)
+    pre = {(p, l): wf for p, l, wf in d['pre_extra']}
+    try:
+        return same_as_fresh(k, run_case(k), run_case(k, pre_extra=pre)) is not None
+    except Exception:
+        return True
 
 
 def copied_replay(d, oracle):
@@ -192,6 +201,18 @@ def campaign(ck, n, oracle, gen_kw=None, coq_lanes=1, label='WaveSim', coq_every
                 d = describe(k)
                 d['warm_round'] = {'s0': wr[0].tolist(), 's1': wr[1].tolist(), 's2': wr[2].tolist(), 'extra': [[p, l, wf] for (p, l), wf in wr[3].items()], 'first_lanes': j}
                 fails.append((d, 'simulator reuse' + (f', c_prop(sims={j})' if j else '') + ': ' + what))
+        if i % 5 == 2 and k.extra:
+            # re-propagation after waveforms were rewritten directly in the simulator's memory (no s_to_c in between): the first propagation
+            # uses the directly written waveforms shifted by +7 (same positions, same shapes), the second the waveforms proper
+            pre = {key: [(t + 7 if not isinstance(t, str) else t) for t in wf] for key, wf in k.extra.items()}
+            try:
+                what = same_as_fresh(k, w, run_case(k, pre_extra=pre))
+            except Exception:
+                what = 'raises ' + traceback.format_exc()[-400:]
+            ck.count(k.sims, 're-propagation after direct waveform writes')
+            if what:
+                fails.append((dict(describe(k), pre_extra=[[p, l, wf] for (p, l), wf in pre.items()]),
+                              'second c_prop after rewriting input waveforms in memory (no s_to_c in between): ' + what))
         if i % 5 == 4:
             # the same round on simulators that went through a pickle round trip / a deep copy after assignment (CPU and GPU-kernel class):
             # the property's oracle must hold for them and their results must equal the original's
